@@ -89,7 +89,7 @@ func noIdt() M {
 func NoOut() M {
 	return M{"class": "none", "status": 0, "err": "none", "doc": false, "req": "none", "target": "none", "channel": "none",
 		"state": "none", "code": "none", "at": noTok(), "rt": noRt(), "idt": noIdt(), "scope": []string{}, "sub": "none",
-		"rotated": "none", "bare": true, "dc": "none", "uc": "none", "journal": []string{}}
+		"rotated": "none", "bare": true, "dc": "none", "uc": "none", "journal": []string{}, "issuedType": "", "actor": "none"}
 }
 
 // ------------------------------------------------------------ helpers on generic args
@@ -572,14 +572,30 @@ func (d *Driver) tokenResponse(r *RawResponse, out M, code string) {
 		return
 	}
 	out["class"] = "tokens"
-	out["at"] = d.ProjectAT(body.AccessToken)
+	out["issuedType"] = typeFromURN(body.IssuedType)
+	if out["issuedType"] == "id" {
+		// RFC 8693: the issued token travels in the access_token member whatever its type
+		out["idt"] = d.ProjectIDT(body.AccessToken, "", "")
+	} else {
+		out["at"] = d.ProjectAT(body.AccessToken)
+		out["idt"] = d.ProjectIDT(body.IDToken, body.AccessToken, code)
+	}
 	out["rt"] = d.ProjectRT(body.RefreshToken)
-	out["idt"] = d.ProjectIDT(body.IDToken, body.AccessToken, code)
 	if body.Scope != "" {
 		out["scope"] = strings.Split(body.Scope, " ")
 	}
-	out["issuedType"] = body.IssuedType
 	out["expiresIn"] = body.ExpiresIn
+	if at, ok := out["at"].(M); ok && S(at, "name") != "none" && S(at, "name") != "unknown" {
+		d.Store.Lock()
+		for sid, n := range d.atNm {
+			if n == S(at, "name") {
+				if t, ok := d.Store.Tokens[sid]; ok && t.Actor != "" {
+					out["actor"] = t.Actor
+				}
+			}
+		}
+		d.Store.Unlock()
+	}
 }
 
 // ------------------------------------------------------------ token strings (C08)
@@ -938,15 +954,82 @@ func (d *Driver) Exec(opName string, a M) M {
 			dv.Slow = false
 		}
 		d.Store.Unlock()
+	case "ClientCreds":
+		form, hdr := url.Values{"grant_type": {"client_credentials"}}, http.Header{}
+		if sc := SS(a, "scopes"); len(sc) > 0 {
+			form.Set("scope", strings.Join(sc, " "))
+		}
+		d.applyCred(form, hdr, S(a, "caller"), Sub(a, "cred"))
+		d.tokenResponse(d.post("/oauth/token", form, hdr), out, "")
+	case "JWTBearer":
+		form := url.Values{"grant_type": {string(oidc.GrantTypeBearer)}}
+		key := ClientKey(S(a, "iss"))
+		if S(a, "key") == "foreign" {
+			key = ForeignKey(S(a, "iss"))
+		}
+		form.Set("assertion", SignAssertion(S(a, "iss"), S(a, "iss"), []string{Issuer}, time.Now(), time.Now().Add(time.Minute), key))
+		if sc := SS(a, "scopes"); len(sc) > 0 {
+			form.Set("scope", strings.Join(sc, " "))
+		}
+		d.tokenResponse(d.post("/oauth/token", form, nil), out, "")
+	case "TokenExchange":
+		form, hdr := url.Values{"grant_type": {string(oidc.GrantTypeTokenExchange)}}, http.Header{}
+		subj, actor := Sub(a, "subj"), Sub(a, "actor")
+		form.Set("subject_token", d.RefString(subj))
+		form.Set("subject_token_type", tokenTypeURN[S(subj, "declared")])
+		if S(actor, "kind") != "none" && S(actor, "kind") != "" {
+			form.Set("actor_token", d.RefString(actor))
+			form.Set("actor_token_type", tokenTypeURN[S(actor, "declared")])
+		}
+		if rq := S(a, "requested"); rq != "" {
+			form.Set("requested_token_type", tokenTypeURN[rq])
+		}
+		if sc := SS(a, "scopes"); len(sc) > 0 {
+			form.Set("scope", strings.Join(sc, " "))
+		}
+		d.applyCred(form, hdr, S(a, "caller"), Sub(a, "cred"))
+		d.tokenResponse(d.post("/oauth/token", form, hdr), out, "")
+		if id, ok := out["idt"].(M); ok && S(id, "name") != "none" {
+			// actor of an issued ID token
+			if raw := d.idtRaw[S(id, "name")]; raw != "" {
+				if p := strings.Split(raw, "."); len(p) == 3 {
+					var c M
+					b, _ := base64.RawURLEncoding.DecodeString(p[1])
+					json.Unmarshal(b, &c)
+					if act := Sub(c, "act"); S(act, "sub") != "" {
+						out["actor"] = S(act, "sub")
+					}
+				}
+			}
+		}
 	default:
 		out["class"] = "unsupported-op"
 	}
 	return out
 }
 
+// RefString renders a token reference [kind, form, id, declared] of a token-exchange request.
+func (d *Driver) RefString(ref M) string {
+	switch S(ref, "kind") {
+	case "access":
+		return d.TokString(M{"form": S(ref, "form"), "id": S(ref, "id")})
+	case "refresh":
+		if raw, ok := d.rtRaw[S(ref, "id")]; ok {
+			return raw
+		}
+		return "unknown-rt-" + S(ref, "id")
+	case "id":
+		return d.HintString(M{"kind": S(ref, "form"), "id": S(ref, "id")})
+	}
+	return "garbage"
+}
+
 // HintString renders an id_token_hint [kind, id].
 func (d *Driver) HintString(h M) string {
-	raw := d.idtRaw[S(h, "id")]
+	raw, known := d.idtRaw[S(h, "id")]
+	if !known {
+		return "unknown-id-token-" + S(h, "id") // an id token this provider never issued
+	}
 	var claims M
 	if p := strings.Split(raw, "."); len(p) == 3 {
 		b, _ := base64.RawURLEncoding.DecodeString(p[1])
